@@ -1,0 +1,29 @@
+//go:build verif
+// +build verif
+
+package raft
+
+import (
+	etcdRaft "github.com/coreos/etcd/raft"
+	"github.com/coreos/etcd/raft/raftpb"
+)
+
+// Verification hooks. Compiled only with -tags verif.
+
+// VerifStatus exposes the raft status of a group.
+func (this *RaftGroup) VerifStatus() etcdRaft.Status {
+	return this.raft.Status()
+}
+
+// VerifCampaign makes the group campaign immediately.
+func (this *RaftGroup) VerifCampaign() error {
+	return this.raft.Campaign(this.ctx)
+}
+
+// VerifConfState is the configuration state the group would put into a snapshot.
+func (this *RaftGroup) VerifConfState() *raftpb.ConfState {
+	return this.raftConfState
+}
+
+// VerifSharedGroup is the exported view of the shared group type.
+type VerifSharedGroup = sharedGroup
